@@ -200,7 +200,7 @@ theorem strict_nil_modelled (c : Codec) (st : Bytes → Except ErrKind Text) (h 
   | table tbl => simp only [Codec.strict, Option.some.injEq] at h; subst h; exact ⟨[], rfl⟩
   | utf8 => simp only [Codec.strict, Option.some.injEq] at h; subst h; exact ⟨[], rfl⟩
   | utf16 le => simp only [Codec.strict, Option.some.injEq] at h; subst h; exact ⟨[], rfl⟩
-  | external id => simp [Codec.strict] at h
+  | external id => simp only [Codec.strict] at h; exact ⟨[], Cjk.strictOf_nil h⟩
 
 /-- the chunk-mode helper on a whole input, as `decodeStrict` calls it -/
 theorem C02_chunk_retry_total (c : Codec) (st : Bytes → Except ErrKind Text) (h : c.strict = some st) (input : Bytes) :
